@@ -13,7 +13,10 @@ import (
 
 	"github.com/AdguardTeam/AdGuardDNS/internal/dnsmsg"
 	"github.com/AdguardTeam/AdGuardDNS/internal/dnsserver"
+	dnssrvprom "github.com/AdguardTeam/AdGuardDNS/internal/dnsserver/prometheus"
+	"github.com/AdguardTeam/AdGuardDNS/verif/tbench"
 	"github.com/miekg/dns"
+	"github.com/prometheus/client_golang/prometheus"
 )
 
 // Reserved first labels (compared case-insensitively) that make H misbehave on
@@ -326,4 +329,59 @@ func reference(req *dns.Msg) (kind refKind, resp *dns.Msg) {
 	default:
 		return refWrote, nrw.Msg()
 	}
+}
+
+// prodMetrics is the metrics wiring of production plus the harness' counters:
+// dnssvc.New installs prometheus.NewServerMetricsListener on every server, and
+// the servers call it for every message, acceptable or not, between recording
+// a response and (on DoH, DoQ and DNSCrypt) sending it.
+type prodMetrics struct {
+	prom  dnsserver.MetricsListener
+	count *tbench.CountingMetrics
+}
+
+var (
+	promOnce     sync.Once
+	promListener dnsserver.MetricsListener
+)
+
+// newProdMetrics returns the composite listener.  The prometheus listener
+// registers its collectors with promauto, so there is one per process, on a
+// private registry.
+func newProdMetrics(count *tbench.CountingMetrics) *prodMetrics {
+	promOnce.Do(func() {
+		reg := prometheus.NewRegistry()
+		prometheus.DefaultRegisterer, prometheus.DefaultGatherer = reg, reg
+		promListener = dnssrvprom.NewServerMetricsListener("c01")
+	})
+
+	return &prodMetrics{prom: promListener, count: count}
+}
+
+// type check
+var _ dnsserver.MetricsListener = (*prodMetrics)(nil)
+
+func (m *prodMetrics) OnRequest(ctx context.Context, info *dnsserver.QueryInfo, rw dnsserver.ResponseWriter) {
+	m.count.OnRequest(ctx, info, rw)
+	m.prom.OnRequest(ctx, info, rw)
+}
+
+func (m *prodMetrics) OnInvalidMsg(ctx context.Context) {
+	m.count.OnInvalidMsg(ctx)
+	m.prom.OnInvalidMsg(ctx)
+}
+
+func (m *prodMetrics) OnError(ctx context.Context, err error) {
+	m.count.OnError(ctx, err)
+	m.prom.OnError(ctx, err)
+}
+
+func (m *prodMetrics) OnPanic(ctx context.Context, v any) {
+	m.count.OnPanic(ctx, v)
+	m.prom.OnPanic(ctx, v)
+}
+
+func (m *prodMetrics) OnQUICAddressValidation(hit bool) {
+	m.count.OnQUICAddressValidation(hit)
+	m.prom.OnQUICAddressValidation(hit)
 }
